@@ -380,6 +380,7 @@ func reachVia(fn *ssa.Function, pred, from *ssa.BasicBlock, cut EdgeSet) map[*ss
 	type state struct {
 		b    *ssa.BasicBlock
 		pred *ssa.BasicBlock
+		h    mergeHist
 	}
 	hasViaAt := map[*ssa.BasicBlock]bool{}
 	for e := range cut {
@@ -387,14 +388,19 @@ func reachVia(fn *ssa.Function, pred, from *ssa.BasicBlock, cut EdgeSet) map[*ss
 			hasViaAt[e.From] = true
 		}
 	}
+	rel := relevantMerges(fn)
+	h0 := mergeHist{-1, -1, -1, -1}
+	if pred != nil {
+		h0 = h0.enter(rel, from, pred)
+	}
 	seen := map[*ssa.BasicBlock]bool{from: true}
 	done := map[state]bool{}
-	work := []state{{from, pred}}
+	work := []state{{from, pred, h0}}
 	for len(work) > 0 {
 		st := work[len(work)-1]
 		work = work[:len(work)-1]
-		only := decidedSucc(st.pred, st.b)
-		key := state{st.b, nil}
+		only := decidedSuccH(st.pred, st.b, rel, st.h)
+		key := state{st.b, nil, st.h}
 		if only >= 0 || hasViaAt[st.b] {
 			key.pred = st.pred // the way in matters
 		}
@@ -410,10 +416,90 @@ func reachVia(fn *ssa.Function, pred, from *ssa.BasicBlock, cut EdgeSet) map[*ss
 				continue
 			}
 			seen[s] = true
-			work = append(work, state{s, st.b})
+			work = append(work, state{s, st.b, st.h.enter(rel, s, st.b)})
 		}
 	}
 	return seen
+}
+
+// mergeHist remembers, for up to four merge blocks whose phis feed a later test (the result
+// merges an inlined helper leaves behind, possibly nested: the inner helper's result merges into
+// the outer helper's, which merges into the caller's `if err != nil`), from which predecessor
+// each was entered last. A phi of such a block then stands for one definite input.
+type mergeHist [4]int8
+
+var relMergeCache = map[*ssa.Function][]*ssa.BasicBlock{}
+
+func (h mergeHist) enter(rel []*ssa.BasicBlock, s, from *ssa.BasicBlock) mergeHist {
+	for k, m := range rel {
+		if m == s {
+			h[k] = -1
+			for i, p := range s.Preds {
+				if p == from {
+					h[k] = int8(i)
+					break
+				}
+			}
+		}
+	}
+	return h
+}
+
+// relevantMerges: blocks holding a phi that decides an If (a boolean phi, or a phi compared with
+// nil), or a phi nested in such a phi's inputs. At most four, in block order.
+func relevantMerges(fn *ssa.Function) []*ssa.BasicBlock {
+	if r, ok := relMergeCache[fn]; ok {
+		return r
+	}
+	set := map[*ssa.BasicBlock]bool{}
+	var add func(v ssa.Value, d int)
+	add = func(v ssa.Value, d int) {
+		ph, ok := v.(*ssa.Phi)
+		if !ok || d > 3 {
+			return
+		}
+		nested := false
+		for _, e := range ph.Edges {
+			if _, ok := e.(*ssa.Phi); ok {
+				nested = true
+				add(e, d+1)
+			}
+		}
+		// the phi of the testing block itself is resolved by the way in; only nesting needs history
+		if d > 0 || nested {
+			set[ph.Block()] = true
+		}
+	}
+	for _, b := range fn.Blocks {
+		if len(b.Instrs) == 0 {
+			continue
+		}
+		iff, ok := b.Instrs[len(b.Instrs)-1].(*ssa.If)
+		if !ok {
+			continue
+		}
+		base, _ := condNorm(iff.Cond)
+		switch x := base.(type) {
+		case *ssa.Phi:
+			add(x, 0)
+		case *ssa.BinOp:
+			if x.Op == token.EQL || x.Op == token.NEQ {
+				if isNilConst(x.Y) {
+					add(blockLocalValue(x.X), 0)
+				} else if isNilConst(x.X) {
+					add(blockLocalValue(x.Y), 0)
+				}
+			}
+		}
+	}
+	var out []*ssa.BasicBlock
+	for _, b := range fn.Blocks {
+		if set[b] && len(out) < 4 {
+			out = append(out, b)
+		}
+	}
+	relMergeCache[fn] = out
+	return out
 }
 
 // decidedSucc: when block b is entered from predecessor p, is the outcome of b's
@@ -422,7 +508,11 @@ func reachVia(fn *ssa.Function, pred, from *ssa.BasicBlock, cut EdgeSet) map[*ss
 // compared with nil (what the inlining of a helper makes of its returned error:
 // `r = phi [nil, err, ...]; if r != nil`). Returns the successor index, or -1.
 func decidedSucc(p, b *ssa.BasicBlock) int {
-	if p == nil || len(b.Instrs) == 0 {
+	return decidedSuccH(p, b, nil, mergeHist{-1, -1, -1, -1})
+}
+
+func decidedSuccH(p, b *ssa.BasicBlock, rel []*ssa.BasicBlock, h mergeHist) int {
+	if len(b.Instrs) == 0 {
 		return -1
 	}
 	iff, ok := b.Instrs[len(b.Instrs)-1].(*ssa.If)
@@ -430,16 +520,49 @@ func decidedSucc(p, b *ssa.BasicBlock) int {
 		return -1
 	}
 	base, neg := condNorm(iff.Cond)
-	edgeOf := func(phi *ssa.Phi) ssa.Value {
-		if phi.Block() != b {
-			return nil
+	// a constant condition (what inlining a helper with a constant flag argument leaves behind)
+	if k, ok := constBool(base); ok {
+		if neg {
+			k = !k
 		}
-		for i, pp := range b.Preds {
-			if pp == p {
-				return phi.Edges[i]
+		if k {
+			return 0
+		}
+		return 1
+	}
+	if p == nil {
+		return -1
+	}
+	// the input a phi stands for on this path, and the block that input arrived from
+	var from *ssa.BasicBlock
+	var edgeOf func(phi *ssa.Phi) ssa.Value
+	edgeOf = func(phi *ssa.Phi) ssa.Value {
+		var v ssa.Value
+		if phi.Block() == b {
+			for i, pp := range b.Preds {
+				if pp == p {
+					v, from = phi.Edges[i], pp
+					break
+				}
+			}
+		} else {
+			for k, m := range rel {
+				if m == phi.Block() && h[k] >= 0 && int(h[k]) < len(phi.Edges) {
+					v, from = phi.Edges[h[k]], m.Preds[h[k]]
+				}
 			}
 		}
-		return nil
+		if v == nil {
+			return nil
+		}
+		if inner, ok := v.(*ssa.Phi); ok && inner != phi {
+			f0 := from
+			if w := edgeOf(inner); w != nil {
+				return w
+			}
+			from = f0
+		}
+		return v
 	}
 	outcome := func(k bool) int {
 		if neg {
@@ -474,7 +597,10 @@ func decidedSucc(p, b *ssa.BasicBlock) int {
 		if v == nil {
 			return -1
 		}
-		switch nilness(v, p) {
+		if from == nil {
+			from = p
+		}
+		switch nilness(v, from) {
 		case 1: // nil
 			return outcome(x.Op == token.EQL)
 		case 2: // non-nil
